@@ -140,7 +140,7 @@ def _check_blocks(ctx: Ctx) -> None:
     from ..astutil import cumulative_slices, cumulative_vectors
     M = ctx.model
     ctx.rule('C08.d', 'blocks are cut as [cumNr[i]:cumNr[i+1], cumNt[j]:cumNt[j+1]] with rows from receive and columns from '
-                      'transmit antenna counts', floor=8)
+                      'transmit antenna counts', floor=6)
     targets = [(PATH, 'MultiUserChannelMatrix._from_small_matrix_to_big_matrix'), (PATH, 'MultiUserChannelMatrix.corrupt_data'),
                (PATH, 'MultiUserChannelMatrixExtInt.calc_cov_matrix_extint_without_noise'),
                ('pyphysim/util/conversion.py', 'single_matrix_to_matrix_of_matrices')]
